@@ -169,6 +169,32 @@ def _job(args):
                             break
                 cases.append(scan.model_scan_case(enc, root, dirs, files, mp))
                 metas.append((mp, mods, edges, case))
+                # an exclusion pattern that matches a directory ABOVE module_path (root_path's own directory included) and
+                # nothing at or below module_path: exclusions decide about what the scan finds at or below module_path, the ancestor
+                # packages of module_path are part of the architecture regardless - same modules, same imports as without it
+                if len(mp) > 1 and not xk and rng.random() < 0.5:
+                    import re as _re
+                    from harness.props.c08 import glob_oracle
+                    anc = mp[:rng.randint(1, len(mp) - 1)]
+                    anc_path = os.path.join(str(base), *anc)
+                    below = [os.path.join(str(base), *p0[:-1], p0[-1] + ((".py" if files[p0]["py"] else ".txt") if p0 in files else ""))
+                             for p0 in list(dirs) + list(files) if p0[:len(mp)] == mp]
+                    as_regex = rng.random() < 0.4
+                    if as_regex:
+                        pat = rng.choice([".*/" + _re.escape(anc[-1]) + "$", _re.escape(anc_path) + "$"])
+                        hits = lambda s0: _re.match(pat, s0) is not None
+                        akw = dict(exclusions=(), regex_exclusions=(pat,))
+                    else:
+                        pat = rng.choice([anc_path, "*/" + anc[-1], "*" + anc[-1]])
+                        hits = lambda s0: glob_oracle(pat, s0)
+                        akw = dict(exclusions=(pat,))
+                    if hits(anc_path) and not any(hits(s0) for s0 in below):
+                        ra = scan.real_scan(base, root, mp, **akw)
+                        out["n"] += 1
+                        out["stats"]["exclusion_matching_only_an_ancestor_of_module_path"] = out["stats"].get("exclusion_matching_only_an_ancestor_of_module_path", 0) + 1
+                        if ra[0] != "OK" or ra[1] != mods or ra[2] != edges:
+                            out["violations"].append((dict(case, options={k0: list(v0) for k0, v0 in akw.items()}, with_pattern=[ra[1], ra[2]] if ra[0] == "OK" else ra[1], without=[mods, edges]),
+                                                      f"an exclusion pattern ({pat!r}) that matches only {scan.dotted(anc)}, a directory above module_path {scan.dotted(mp)}, changes the architecture", {"kind": "ancestor_exclusion"}))
                 if len(mods) > 3:
                     out["nontrivial"] += 1
             # an inner directory scanned as a project of its own (root_path = module_path = that directory), in the same process and
